@@ -272,7 +272,7 @@ func ArrayAccessFunction(name string) ZlispUserFunction {
 			case *SexpInt:
 				i = int(j.Val)
 			default:
-				return SexpNull, fmt.Errorf("Second argument of aget could not be evaluated to integer; got j = '%#v'/type = %T", j, j)
+				return SexpNull, fmt.Errorf("Second argument of aget could not be evaluated to integer; got j = '%s'/type = %T", showForError(j), j)
 			}
 		}
 
@@ -940,7 +940,7 @@ func MapFunction(env *Zlisp, name string, args []Sexp) (Sexp, error) {
 	case *SexpFunction:
 		fun = e
 	default:
-		return SexpNull, fmt.Errorf("first argument must be function, but we had %T / val = '%#v'", e, e)
+		return SexpNull, fmt.Errorf("first argument must be function, but we had %T / val = '%s'", e, showForError(e))
 	}
 
 	switch e := args[1].(type) {
@@ -950,7 +950,7 @@ func MapFunction(env *Zlisp, name string, args []Sexp) (Sexp, error) {
 		x, err := MapList(env, fun, e)
 		return x, err
 	default:
-		return SexpNull, fmt.Errorf("second argument must be array or list; we saw %T / val = %#v", e, e)
+		return SexpNull, fmt.Errorf("second argument must be array or list; we saw %T / val = %s", e, showForError(e))
 	}
 }
 
